@@ -95,6 +95,17 @@ CHECKS = {
         "units": [unit("c11-root", "root", ["zz_verif_c11_test.go"], "^TestVerifC11", shards={"quick": 16, "thorough": 16})],
         "assumptions": ["verdicts that depend on Go's map iteration order are sampled 16 times per proof (residual miss probability of a defective tree < 2^-60, see DESIGN 4 C11)"],
     },
+    "C07": {
+        "level": "model_checking",
+        "units": [
+            unit("c07-seq", "root", ["zz_verif_c07_test.go", "zz_verif_c11_test.go", "zz_verif_c20_test.go"], "^TestVerifC07Sequential$", shards={"quick": 12, "thorough": 16}),
+            unit("c07-conc-cprng", "root", ["zz_verif_c07_test.go", "zz_verif_c11_test.go", "zz_verif_c20_test.go"], "^TestVerifC07ConcurrentCPRNG$", shards={"quick": 8, "thorough": 16},
+                 instr=["credential.go", "internal/common/fastrandom.go"], instr_fields={"credential.go": ["nonrevCache"]}),
+            unit("c07-conc-cache", "root", ["zz_verif_c07_test.go", "zz_verif_c11_test.go", "zz_verif_c20_test.go"], "^TestVerifC07ConcurrentCache$", shards={"quick": 10, "thorough": 16},
+                 instr=["credential.go"], instr_fields={"credential.go": ["nonrevCache"]}),
+        ],
+        "assumptions": ["randomness is the seeded deterministic generator, so a reuse is reproduced bit for bit; statistical quality of the generators is out of scope"],
+    },
     "_FIX": {
         "level": "other",
         "units": [unit("genfix", "root", [], "^TestVerifGenFixtures$", env={"VERIF_GENFIX": "1"}, timeout=1800)],
